@@ -130,6 +130,13 @@ class ExpressionTransformer:
         self.nsp = nsp
 
     def get_pending(self, node: expr) -> PendingExprGeneric:
+        if isinstance(node, (Yield, YieldFrom, Await)):
+            # the function body becomes a lambda / comprehension,
+            # where these have a different meaning or are not allowed
+            raise RuntimeError(
+                f"At line {node.lineno}, col {node.col_offset}: "
+                f"Unable to convert node '{type(node).__name__}'"
+            )
         if isinstance(node, NamedExpr):
             return PendingNamedExpr(node, self.nsp)
         elif isinstance(node, Name):
